@@ -12,15 +12,15 @@
 
 namespace c14
 {
-    template <class Tr, size_t N> struct ThrowCase
+    template <class Tr, size_t N, class T = Tracked> struct ThrowCase
     {
-        using T = Tracked;
         using Vec = typename Tr::template vec<T, N>;
         string variant;
+        string family = "throwing";
         trk::Registry reg;
         bool bad(const string &op, const char *kind, const string &msg)
         {
-            mc::violation(mc::fmt("C14.%s.throwing.%s.%s", variant.c_str(), op.c_str(), kind), "%s", msg.c_str());
+            mc::violation(mc::fmt("C14.%s.%s.%s.%s", variant.c_str(), family.c_str(), op.c_str(), kind), "%s", msg.c_str());
             return false;
         }
         bool consistent(const string &op, Block<Vec> &b, const std::vector<int> *prefix)
@@ -295,9 +295,146 @@ namespace c14
         mc::outcome(mc::fmt("%d", count));
     }
 
+    // ------------------------------------------------------------------ unusual but legal element types
+    // E = trk::Amp (overloaded unary operator&) or trk::MoveOnly, N = 3: n elements through emplace_back, then
+    // one operation; size / contents / lifetime as everywhere else, destruction must balance.
+    template <class Tr, class E, bool Copyable> void unusual_element_body(const string &variant)
+    {
+        constexpr size_t N = 3;
+        using Vec = typename Tr::template vec<E, N>;
+        const int NOPS = 11;
+        int c = mc::choose(4 * NOPS);
+        int n = c / NOPS, op = c % NOPS;
+        static const char *on[] = {"none", "erase_range", "resize_longer", "resize_shorter", "clear", "move_ctor", "move_assign", "copy_ctor", "copy_assign", "push_back", "emplace_back_full"};
+        mc::describe("%s: %d elements through emplace_back, then %s", variant.c_str(), n, on[op]);
+        if (!Copyable && op >= 7 && op <= 9)
+            throw mc::Skip();
+        if (op == 1 && !Tr::has_erase)
+            throw mc::Skip();
+        mc::nontrivial();
+        ThrowCase<Tr, N, E> tc;
+        tc.variant = variant;
+        tc.family = "elements";
+        tc.reg.prop = "C14";
+        trk::Use u(tc.reg);
+        string o = "emplace_back";
+        auto ctx = [&](const string &op) {
+            tc.reg.begin_op(variant + ".elements." + op);
+            mc::crash_context("C14.%s.elements.%s.crash", variant.c_str(), op.c_str());
+        };
+        ctx(o);
+        Block<Vec> X, Y;
+        tc.reg.zone_add(X.mem, X.size(), 0, 0, false);
+        tc.reg.zone_add(Y.mem, Y.size(), 0, 0, false);
+        new (X.ptr()) Vec();
+        bool has_y = false;
+        std::vector<int> mx, my;
+        for (int i = 0; i < n; i++)
+        {
+            X->emplace_back(i + 1);
+            mx.push_back(i + 1);
+        }
+        auto sized = [&](const string &op, Block<Vec> &b, const std::vector<int> &m) {
+            if ((size_t)b->size() != m.size())
+                return tc.bad(op, "size", mc::fmt("size()=%zu, reference has %zu elements", (size_t)b->size(), m.size()));
+            return tc.consistent(op, b, &m);
+        };
+        if (!sized(o, X, mx))
+            return;
+        size_t mid = mx.size() / 2;
+        ctx(o = on[op]);
+        switch (op)
+        {
+        case 1:
+            if constexpr (Tr::has_erase)
+            {
+                X->erase(X->begin(), X->begin() + mid);
+                mx.erase(mx.begin(), mx.begin() + mid);
+            }
+            break;
+        case 2:
+            X->resize(N);
+            mx.resize(N);
+            break;
+        case 3:
+            X->resize(n / 2);
+            mx.resize(n / 2);
+            break;
+        case 4:
+            X->clear();
+            mx.clear();
+            break;
+        case 5:
+            new (Y.ptr()) Vec(std::move(*X));
+            has_y = true;
+            my = mx;
+            mx.assign(X->size() <= mx.size() ? X->size() : mx.size(), UNSPEC);
+            break;
+        case 6:
+            new (Y.ptr()) Vec();
+            has_y = true;
+            Y->emplace_back(5);
+            *Y = std::move(*X);
+            my = mx;
+            mx.assign(X->size() <= mx.size() ? X->size() : mx.size(), UNSPEC);
+            break;
+        case 7:
+            if constexpr (Copyable)
+            {
+                new (Y.ptr()) Vec(*X);
+                has_y = true;
+                my = mx;
+            }
+            break;
+        case 8:
+            if constexpr (Copyable)
+            {
+                new (Y.ptr()) Vec();
+                has_y = true;
+                Y->emplace_back(5);
+                *Y = *X;
+                my = mx;
+            }
+            break;
+        case 9:
+            if constexpr (Copyable)
+            {
+                E e(8);
+                X->push_back(e);
+                if (mx.size() < N)
+                    mx.push_back(8);
+            }
+            break;
+        case 10:
+            for (int i = 0; i < 5; i++)
+            {
+                X->emplace_back(20 + i);
+                if (mx.size() < N)
+                    mx.push_back(20 + i);
+            }
+            break;
+        }
+        // moved-from sources: values unspecified, but every counted element must be an object
+        bool moved = op == 5 || op == 6;
+        if (moved ? !tc.consistent(o, X, nullptr) : !sized(o, X, mx))
+            return;
+        if (has_y && !sized(o, Y, my))
+            return;
+        ctx(o = "destructor");
+        X->~Vec();
+        if (has_y)
+            Y->~Vec();
+        if (tc.reg.live_total())
+            tc.bad(o, "elements_left_alive", mc::fmt("%ld element object(s) alive after the containers were destroyed", tc.reg.live_total()));
+        tc.reg.mute = true;
+        mc::outcome(mc::fmt("%d/%d", n, op));
+    }
+
     template <class Tr> void register_throwing()
     {
         string n = Tr::name;
+        mc::add_check(n + "_vector_address_of_overloaded", [n] { unusual_element_body<Tr, trk::Amp, true>(n + "_vector_address_of_overloaded"); });
+        mc::add_check(n + "_vector_move_only", [n] { unusual_element_body<Tr, trk::MoveOnly, false>(n + "_vector_move_only"); });
         mc::add_check(n + "_vector_emplace_multiarg", [n] { emplace_multiarg_body<Tr>(n + "_vector"); });
         mc::add_check(n + "_vector_throwing_elements", [n] {
             // the first choice combines N with everything else: wide enough to shard
